@@ -151,6 +151,9 @@ func runC09(c *Ctx) {
 	// last -- the adoption of an orphan revision ends what makes the sync look at that revision at all, so the label sync
 	// it is to get comes before it; a failure in between is then met again by the retry (the order rule of C18.4, as a clause)
 	c.withOnly(map[string]string{"C18.4-sync-before-adopt": "C09.3-the-write-that-ends-the-trigger-comes-last"}, nil, "C09.3-adoption-order", 1, func() { runC18(c) })
+	// what an interrupted label sync leaves half done is found again only if the listing by the upgrade label is made
+	// whatever the listing by selector returned (the listing rule of C18.4, as a clause)
+	c.withOnly(map[string]string{"C18.4-both-listings-on-every-call": "C09.3-half-done-work-is-found-again"}, nil, "C09.3-history-listings", 1, func() { runC18(c) })
 	c.preconditionRejections("C09.4")
 	c.statusRetryShape("C09.5")
 }
@@ -731,7 +734,7 @@ func (c *Ctx) stateless(prefix string) {
 	n := 0
 	for f := range reach {
 		fi := c.P.FuncInfoOf(f)
-		if fi == nil || !(fi.Pkg.PkgPath == load.CtrlPkg || fi.Pkg.PkgPath == load.K8sPkg) {
+		if fi == nil || !(fi.Pkg.PkgPath == load.CtrlPkg || fi.Pkg.PkgPath == load.K8sPkg || fi.Pkg.PkgPath == load.HelperPkg) {
 			continue
 		}
 		n++
